@@ -1281,9 +1281,23 @@ def rule_tokbnd(c: Ctx) -> RuleResult:
         tok_lists = sorted({U(n.value) for n in own_nodes(f.node) if isinstance(n, ast.Subscript) and sc.type(n.value) == ("list", "Token")
                             and isinstance(n.value, (ast.Name, ast.Attribute))})
 
+        def rec_list(g: Func, name: str, depth: int = 0) -> bool:
+            """a local list of token indices taken from records - or a parameter for which every call site passes such a list"""
+            if _record_list(g, name, only=("token",)):
+                return True
+            if depth < 2 and name in [a.arg for a in g.node.args.posonlyargs + g.node.args.args] and c.internal_helper(g) \
+                    and not any(isinstance(n, ast.Call) and isinstance(n.func, ast.Attribute) and isinstance(n.func.value, ast.Name)
+                                and n.func.value.id == name and n.func.attr in ("append", "extend", "insert") for n in own_nodes(g.node)) \
+                    and not any(isinstance(n, ast.Name) and n.id == name and isinstance(n.ctx, ast.Store) for n in own_nodes(g.node)):
+                sites = c.cg.callers.get(g, [])
+                if sites and all(x.kind in ("direct", "method") for x in sites):
+                    return all((a_ := c.eff.arg_for_param(x, g, name)) is not None and isinstance(a_, ast.Name)
+                               and rec_list(x.caller, a_.id, depth + 1) for x in sites)
+            return False
+
         def rb(call: ast.Call, z: Facts):
             if isinstance(call.func, ast.Attribute) and call.func.attr == "pop" and not call.args and isinstance(call.func.value, ast.Name) \
-                    and _record_list(f, call.func.value.id, only=("token",)):
+                    and rec_list(f, call.func.value.id):
                 for t_ in tok_lists:
                     yield (f"len({t_})", -1)
         return rb if tok_lists else None
